@@ -294,6 +294,22 @@ func sliceBoundsClamped(x *ssa.Slice, at *ssa.BasicBlock) bool {
 	if !boundedBy(x.Low, x.X, at) {
 		return false
 	}
+	// end := min(i+k, len(value))
+	if mc, isCall := x.High.(*ssa.Call); isCall && CalleeName(mc.Common()) == "builtin:min" && len(mc.Call.Args) == 2 {
+		var sum, ln ssa.Value
+		for _, e := range mc.Call.Args {
+			if lenOf(e, x.X) {
+				ln = e
+			} else {
+				sum = e
+			}
+		}
+		if sum == nil || ln == nil {
+			return false
+		}
+		bo, ok := sum.(*ssa.BinOp)
+		return ok && bo.Op == token.ADD && (bo.X == x.Low || bo.Y == x.Low)
+	}
 	ph, ok := x.High.(*ssa.Phi)
 	if !ok || len(ph.Edges) != 2 {
 		return false
